@@ -170,7 +170,8 @@ pub unsafe fn stream_call(
     }
     // nothing beyond `written` may have been touched
     let o = std::slice::from_raw_parts(outp, avail_out);
-    if o[written..].iter().any(|&b| b != 0xA5) {
+    // (inflate only: the compressor may use the rest of the offered buffer as scratch space)
+    if inflate && o[written..].iter().any(|&b| b != 0xA5) {
         return Err("bytes beyond the reported output count were modified".into());
     }
     Ok(CallObs { ret, consumed, written, out: o[..written].to_vec(), adler: s.adler as u32 })
